@@ -83,6 +83,16 @@ fn check_trivial(v: &[u8], accept: bool) -> Option<serde_json::Value> {
 }
 
 
+/// seeded random odd-length term lists up to `max_len` over alphabets of 2..=4 values (wide conflicts: arity is unbounded in the property)
+fn random_seqs(seed: u64, n: usize, max_len: usize) -> Vec<Vec<u8>> {
+    let mut rng = crate::util::Rng::new(seed ^ 0xC01C02);
+    (0..n).map(|_| {
+        let len = 1 + 2 * rng.below((max_len as u64 + 1) / 2) as usize;
+        let k = 2 + rng.below(3);
+        (0..len).map(|_| rng.below(k) as u8).collect()
+    }).collect()
+}
+
 pub fn run(pid: &str, func: &str, replay: Option<serde_json::Value>, _seed: u64) -> serde_json::Value {
 
             if let Some(inp) = &replay {
@@ -99,6 +109,7 @@ pub fn run(pid: &str, func: &str, replay: Option<serde_json::Value>, _seed: u64)
             let want_trivial = pid != "C01" || func.contains("trivial");
             if want_merge {
                 for v in seqs(7, 3) { if let Some(r) = check_simplify(&v) { return hit(json!({"kind": "simplify", "terms": v}), r, "Merge::simplify/update_from_simplified"); } }
+                for v in random_seqs(_seed, 4000, 41) { if let Some(r) = check_simplify(&v) { return hit(json!({"kind": "simplify", "terms": v}), r, "Merge::simplify/update_from_simplified"); } }
                 let inner = seqs(3, 3);
                 for a in &inner { for b in &inner { for c in &inner {
                     let o = vec![a.clone(), b.clone(), c.clone()];
@@ -112,7 +123,8 @@ pub fn run(pid: &str, func: &str, replay: Option<serde_json::Value>, _seed: u64)
             }
             if want_trivial {
                 for v in seqs(7, 3) { for accept in [false, true] { if let Some(r) = check_trivial(&v, accept) { return hit(json!({"kind": "trivial_merge", "terms": v, "accept": accept}), r, "trivial_merge"); } } }
+                for v in random_seqs(_seed, 4000, 41) { for accept in [false, true] { if let Some(r) = check_trivial(&v, accept) { return hit(json!({"kind": "trivial_merge", "terms": v, "accept": accept}), r, "trivial_merge"); } } }
             }
-            json!({"found": false, "note": "scope exhausted: term lists of odd length <= 7 over 3 values; 3-way merges of merges of length <= 3", "scope": "small"})
+            json!({"found": false, "note": "scope exhausted: all term lists of odd length <= 7 over 3 values; 4000 seeded random term lists of odd length <= 41 over 2..4 values; all 3-way merges of merges of length <= 3", "scope": "small"})
         
 }
